@@ -105,3 +105,9 @@ Theorem pool_prefix_bytes_src (lower : char -> char) (source : str) :
            | x :: _ => if (x <? 128)%N then Ok [lower x] else Panic 5%N
            end).
 Proof. exact (pool_prefix_bytes lower source). Qed.
+
+(* the site list is complete: translate/bytesites.py scans the library code of the five crates for
+   every byte-range slicing expression; the files and counts it finds are exactly the sites
+   transcribed in ByteLex.v / ByteVcs.v (a new slicing expression anywhere makes this false) *)
+Lemma slice_sites_complete_ok : slice_sites_complete = true.
+Proof. reflexivity. Qed.
